@@ -29,6 +29,18 @@ class World:
         self.log = []                   # ("submit"|"start"|"finish", pool, id)
         self.sync = 0
         self.max_inflight = 0
+        self.closed = False
+
+    def close(self):
+        """End of the execution this world belongs to. Whatever is finalised
+        later (a generator abandoned in cyclic garbage shutting its pool
+        down) must neither reach the explorer nor run task bodies."""
+        self.closed = True
+        for p in self.pools:
+            for t in p.queue + p.running:
+                t.cancel() or t.set_exception(RuntimeError("world closed"))
+            p.finished.extend(p.queue + p.running)
+            p.queue, p.running = [], []
 
     def executor_class(self, flavour):
         world = self
@@ -63,6 +75,8 @@ class World:
         picks pool events they are executed; returns when main proceeds (or,
         if blocked_on / until is given, when that future is done / that
         predicate holds)."""
+        if self.closed:
+            return
         self.sync += 1
         if blocked_on is not None:
             until = blocked_on.done
@@ -167,7 +181,7 @@ class ControlledExecutor(Executor):
         world.pools.append(self)
 
     def submit(self, fn, /, *args, **kwargs):
-        if self.closed:
+        if self.closed or self.world.closed:
             raise RuntimeError("cannot schedule new futures after shutdown")
         if self.flavour == "process":
             # a real process pool pickles the work item when it is handed to
